@@ -104,6 +104,114 @@ def lean_table(tab):
     return '[\n' + ',\n'.join(rows) + ']'
 
 
+# ------------------------------------------------------------------------------------------------------------------------------
+# the configurable rules: options() bodies with branches and computed defaults -> the program language of lean/Props/C17Prog.lean
+
+CONFIGURABLE = [('wigm', 'wigmProg'), ('meek', 'meekProg')]
+
+
+def _is_options_obj(node):
+    """`options` (the local alias) or `self.E.options`"""
+    if isinstance(node, ast.Name) and node.id == 'options':
+        return True
+    return ast.unparse(node) == 'self.E.options'
+
+
+def _pex(node, where):
+    if isinstance(node, ast.Constant) and isinstance(node.value, (int, str, bool)):
+        return '(.lit (%s))' % lean_ov(node.value)
+    if isinstance(node, ast.Name):
+        return '(.var "%s")' % node.id
+    if isinstance(node, ast.Attribute) and isinstance(node.value, ast.Name) and node.value.id == 'self':
+        return '(.var "self.%s")' % node.attr
+    if isinstance(node, ast.Call) and isinstance(node.func, ast.Attribute) and _is_options_obj(node.func.value):
+        if node.func.attr == 'getopt':
+            if len(node.args) != 1 or node.keywords or not (isinstance(node.args[0], ast.Constant) and isinstance(node.args[0].value, str)):
+                raise TranslationError('%s: getopt call outside the fragment: %s' % (where, ast.unparse(node)))
+            return '(.getopt "%s")' % node.args[0].value
+        if node.func.attr == 'setopt':
+            if len(node.args) != 1 or not (isinstance(node.args[0], ast.Constant) and isinstance(node.args[0].value, str)):
+                raise TranslationError('%s: setopt call outside the fragment: %s' % (where, ast.unparse(node)))
+            kw = {k.arg: k.value for k in node.keywords}
+            if set(kw) - {'default', 'allowed'} or 'default' not in kw:
+                raise TranslationError('%s: setopt(%r) keywords %s (a configurable rule must not force)' % (where, node.args[0].value, sorted(kw)))
+            allowed = '[]'
+            if 'allowed' in kw:
+                a = kw['allowed']
+                if not isinstance(a, (ast.Tuple, ast.List)) or not all(isinstance(e, ast.Constant) and isinstance(e.value, (int, str, bool)) for e in a.elts):
+                    raise TranslationError('%s: allowed= is not a tuple of literals' % where)
+                allowed = '[' + ', '.join(lean_ov(e.value) for e in a.elts) + ']'
+            return '(.setopt "%s" %s %s)' % (node.args[0].value, _pex(kw['default'], where), allowed)
+    if isinstance(node, ast.BinOp) and isinstance(node.op, ast.FloorDiv) and isinstance(node.right, ast.Constant) \
+            and type(node.right.value) is int:
+        if isinstance(node.left, ast.BinOp) and isinstance(node.left.op, ast.Mult) and isinstance(node.left.right, ast.Constant) \
+                and type(node.left.right.value) is int:
+            return '(.mulfdiv %s %d %d)' % (_pex(node.left.left, where), node.left.right.value, node.right.value)
+        return '(.fdiv %s %d)' % (_pex(node.left, where), node.right.value)
+    if isinstance(node, ast.Compare) and len(node.ops) == 1 and isinstance(node.ops[0], ast.Eq) \
+            and isinstance(node.comparators[0], ast.Constant) and isinstance(node.comparators[0].value, (int, str, bool)):
+        return '(.eq %s (%s))' % (_pex(node.left, where), lean_ov(node.comparators[0].value))
+    raise TranslationError('%s: expression outside the translated fragment: %s' % (where, ast.unparse(node)[:100]))
+
+
+def _pblock(stmts, where):
+    out = []
+    for st in stmts:
+        if isinstance(st, ast.Expr) and isinstance(st.value, ast.Constant) and isinstance(st.value.value, str):
+            continue                                                          # docstring
+        if isinstance(st, ast.Assign) and len(st.targets) == 1:
+            t = st.targets[0]
+            if isinstance(t, ast.Name) and t.id == 'options' and ast.unparse(st.value) == 'self.E.options':
+                continue                                                      # the alias
+            if isinstance(t, ast.Name):
+                out.append('(.assign "%s" %s)' % (t.id, _pex(st.value, where))); continue
+            if isinstance(t, ast.Attribute) and isinstance(t.value, ast.Name) and t.value.id == 'self':
+                out.append('(.assign "self.%s" %s)' % (t.attr, _pex(st.value, where))); continue
+        if isinstance(st, ast.Expr) and isinstance(st.value, ast.Call):
+            out.append('(.expr %s)' % _pex(st.value, where)); continue
+        if isinstance(st, ast.If):
+            if not isinstance(st.test, ast.Compare):
+                raise TranslationError('%s: if-test is not a comparison: %s' % (where, ast.unparse(st.test)))
+            out.append('(.ite %s %s %s)' % (_pex(st.test, where), _pblock(st.body, where), _pblock(st.orelse, where))); continue
+        raise TranslationError('%s: options(): statement outside the translated fragment: %s' % (where, ast.unparse(st)[:100]))
+    r = '.nil'
+    for x in reversed(out):
+        r = '(.cons %s %s)' % (x, r)
+    return r
+
+
+def translate_prog(path):
+    tree = ast.parse(open(path).read(), path)
+    rules = [n for n in tree.body if isinstance(n, ast.ClassDef) and n.name == 'Rule']
+    if len(rules) != 1:
+        raise TranslationError('%s: expected one class Rule' % path)
+    fns = [n for n in rules[0].body if isinstance(n, ast.FunctionDef) and n.name == 'options']
+    if len(fns) != 1:
+        raise TranslationError('%s: expected one options()' % path)
+    return _pblock(fns[0].body, os.path.basename(path))
+
+
+def programs(repo):
+    return [(name, translate_prog(os.path.join(repo, 'droop', 'rules', mod + '.py'))) for mod, name in CONFIGURABLE]
+
+
+def lean_prog_file(progs):
+    out = ['import Props.C17Prog', '/-! generated by harness/gen_options.py from droop/rules/wigm.py and meek.py - do not edit -/',
+           'namespace Droop.Gen', 'open Droop.C17']
+    for name, text in progs:
+        out.append('def %s : PBlock := %s' % (name, text))
+        out.append('/-- the program regenerated from the source is the program the theorems of `Props/C17Prog.lean` are about -/')
+        out.append('theorem %s_eq : %s = Droop.C17.%s := rfl' % (name, name, name))
+    out.append('theorem wigm_options (o : Droop.Options) : Droop.ruleOptions "wigm" o = (runProg wigmProg o).map wigmResult :=')
+    out.append('  wigmProg_eq ▸ wigm_options_are_the_program o')
+    out.append('theorem meek_options (rule : String) (hr : rule = "meek" ∨ rule = "warren") (o : Droop.Options) :')
+    out.append('    Droop.ruleOptions rule o = (runProg meekProg o).map meekResult := meekProg_eq ▸ meek_options_are_the_program rule hr o')
+    out.append('end Droop.Gen')
+    out.append('#print axioms Droop.Gen.wigm_options')
+    out.append('#print axioms Droop.Gen.meek_options')
+    return '\n'.join(out) + '\n'
+
+
 def lean_file(tab):
     return ('import Props.C17\n/-! generated by harness/gen_options.py from droop/rules/*.py - do not edit -/\nnamespace Droop.Gen\n'
             'def statutory : List (String × List (String × OV × Bool)) := ' + lean_table(tab) + '\n'
@@ -118,3 +226,5 @@ if __name__ == '__main__':
     tab = table(sys.argv[1])
     open(sys.argv[2], 'w').write(lean_file(tab))
     print(lean_table(tab))
+    if len(sys.argv) > 3:
+        open(sys.argv[3], 'w').write(lean_prog_file(programs(sys.argv[1])))
